@@ -2,6 +2,7 @@ package smt
 
 import (
 	"bufio"
+	"os"
 	"fmt"
 	"io"
 	"os/exec"
@@ -115,6 +116,12 @@ func (s *Session) Check(asserts []*Term) Status {
 	}
 	sb.WriteString("(check-sat)\n(pop 1)\n")
 	s.Calls++
+	if lf := os.Getenv("GOVC_SESSION_LOG"); lf != "" {
+		if f, err := os.OpenFile(lf, os.O_APPEND|os.O_CREATE|os.O_WRONLY, 0o644); err == nil {
+			fmt.Fprintf(f, "; ---- check %d\n%s", s.Calls, sb.String())
+			f.Close()
+		}
+	}
 	if _, err := io.WriteString(s.in, sb.String()); err != nil {
 		s.dead = true
 		return Unknown
